@@ -208,7 +208,7 @@ fn blk_data(rng: &mut Rng) -> Vec<u8> {
 
 /// hostile building blocks (grammar-level mutations pick from these)
 fn blk_hostile(rng: &mut Rng) -> Vec<u8> {
-    match rng.below(16) {
+    match rng.below(17) {
         0 => {
             // DATA header declaring more than follows
             let mut v = rf::frame_forms(rf::T_DATA, 1, 5 + rng.below(1 << 20), *rng.pick(&[4usize, 8]), &[]).unwrap();
@@ -278,6 +278,17 @@ fn blk_hostile(rng: &mut Rng) -> Vec<u8> {
             v[..1 + rng.usize(7)].to_vec()
         }
         14 => raw::headers_frame(&raw::simple_response_headers(*rng.pick(&[100u16, 103, 200]))),
+        15 => {
+            // HEADERS whose field section prefix carries boundary values (prefixed integers up to 2^64-1)
+            let vals: [u64; 8] = [0, 1, 1 << 31, 1 << 62, (1 << 63) - 1, 1 << 63, u64::MAX - 1, u64::MAX];
+            let mut sec = Vec::new();
+            rq::int_encode(8, 0, *rng.pick(&vals), &mut sec);
+            rq::int_encode(7, rng.below(2) as u8, *rng.pick(&vals), &mut sec);
+            if rng.bool() {
+                sec.push(0xd1);
+            }
+            raw::headers_frame(&sec)
+        }
         _ => rng.bytes_1upto(24),
     }
 }
